@@ -470,6 +470,21 @@ fn dump_doc(idx: &str, flags: &str, input: &str, opt: ParsingOptions, doc: &Docu
             hash_ok &= h1.finish() == h2.finish() && x == y;
         }
         writeln!(o, "{} OH {} {}", idx, set.len(), hash_ok as u8).unwrap();
+        // nodes reached through nth()/skip() must round-trip through get_node with the same data
+        let mut ok_rt = 0usize;
+        for k in 0..3usize {
+            let mut it = d1.descendants();
+            if it.nth(k).is_none() {
+                continue;
+            }
+            for x in it {
+                let y = d1.get_node(x.id());
+                if y.map(|y| y == x && y.node_type() == x.node_type() && y.tag_name() == x.tag_name() && y.text() == x.text()).unwrap_or(false) {
+                    ok_rt += 1;
+                }
+            }
+        }
+        writeln!(o, "{} OI {}", idx, ok_rt).unwrap();
     }
     if flags.contains('g') {
         // Debug / Display of everything into a counting sink: only totality is observed
@@ -636,27 +651,3 @@ fn main() {
     }
 }
 
-// Compile-time obligations of C20: every public type is Send + Sync, and a Document can be
-// shared by reference across scoped threads (used above).
-#[allow(dead_code)]
-fn assert_send_sync<T: Send + Sync>() {}
-#[allow(dead_code)]
-fn auto_traits() {
-    assert_send_sync::<roxmltree::Document<'static>>();
-    assert_send_sync::<roxmltree::Node<'static, 'static>>();
-    assert_send_sync::<roxmltree::Attribute<'static, 'static>>();
-    assert_send_sync::<roxmltree::Attributes<'static, 'static>>();
-    assert_send_sync::<roxmltree::AxisIter<'static, 'static>>();
-    assert_send_sync::<roxmltree::Children<'static, 'static>>();
-    assert_send_sync::<roxmltree::Descendants<'static, 'static>>();
-    assert_send_sync::<roxmltree::NamespaceIter<'static, 'static>>();
-    assert_send_sync::<roxmltree::Namespace<'static>>();
-    assert_send_sync::<roxmltree::ExpandedName<'static, 'static>>();
-    assert_send_sync::<roxmltree::StringStorage<'static>>();
-    assert_send_sync::<roxmltree::Error>();
-    assert_send_sync::<roxmltree::NodeId>();
-    assert_send_sync::<roxmltree::TextPos>();
-    assert_send_sync::<roxmltree::ParsingOptions>();
-    assert_send_sync::<roxmltree::PI<'static>>();
-    assert_send_sync::<roxmltree::NodeType>();
-}
